@@ -150,6 +150,8 @@ pub struct Rec {
     pub res: Result<String, (String, String)>,
     pub snap: Snap,
     pub events: Vec<String>,
+    /// interpreter steps executed by this call (hook counter; informational)
+    pub steps: u64,
 }
 
 impl Rec {
@@ -361,6 +363,7 @@ impl Player {
     /// Executes one host operation and records the observation.
     pub fn apply(&mut self, op: &Op) -> Rec {
         let pos = self.story.get_current_path();
+        let steps_before = self.story.verif_counters().steps;
         let res: Result<String, (String, String)> = match op {
             Op::Cont => {
                 let r = self.story.cont();
@@ -471,6 +474,7 @@ impl Player {
             res,
             snap,
             events,
+            steps: self.story.verif_counters().steps - steps_before,
         };
         if rec.is_fuel() {
             self.fuel_hit = true;
